@@ -56,8 +56,10 @@ def recip_value(r, binding, dest=None):
 SPELL_AS_STRING = [False]
 
 
-def sp_for(allow, regex, unsigned=False):
+def sp_for(allow, regex, unsigned=False, post_only=False):
     k = (allow, regex) if not unsigned else (allow, regex, 'unsigned')
+    if post_only:
+        k = k + ('post-only',)
     if SPELL_AS_STRING[0]:
         k = k + ('as-string',)
     if k not in _sp:
@@ -68,7 +70,7 @@ def sp_for(allow, regex, unsigned=False):
             opts['want_response_signed'] = False     # over SOAP the documents are unsigned (the reader re-serialises the body)
         if regex:
             opts['valid_destination_regex'] = REGEXES[regex]
-        _sp[k] = world.make_sp(TMP[0], acs=ACS_ALL, **opts)
+        _sp[k] = world.make_sp(TMP[0], acs=ACS_ALL[:1] if post_only else ACS_ALL, **opts)
     return _sp[k]
 
 
@@ -96,6 +98,15 @@ def docs(thorough):
                 for adv in ('me', 'other', 'me|other', 'substring', 'none'):
                     out.append(dict(binding=binding, enc=enc, irt='req1', scd=['req1'], dest='own', aud='me', recip='own', advice=adv))
             if not enc and binding == BINDING_HTTP_POST:
+                # documents nobody signed, at an SP that does not insist on signatures
+                for irt, s1, d in itertools.product(IRT, SCD_IRT, ('own', 'foreign')):
+                    out.append(dict(binding=binding, enc=enc, irt=irt, scd=[s1], dest=d, aud='me', recip='own', unsigned=True))
+                for irt, s1, s2 in itertools.product(IRT, SCD_IRT, SCD_IRT):
+                    out.append(dict(binding=binding, enc=enc, irt=irt, scd=[s1, s2], dest='own', aud='me', recip='own', unsigned=True))
+                # an SP that registers a consumer endpoint for POST only, handed a response over Redirect
+                for d in DEST:
+                    out.append(dict(binding=BINDING_HTTP_REDIRECT, enc=False, irt='req1', scd=['req1'], dest=d, aud='me', recip='own', post_only=True))
+                    out.append(dict(binding=BINDING_HTTP_REDIRECT, enc=False, irt='req1', scd=['req1'], dest=d, aud='me', recip='own', post_only=True, unsigned=True))
                 # non-initial state: the same SP has just handled a message over another binding
                 for b2 in (BINDING_HTTP_REDIRECT, BINDING_SOAP):
                     for d in DEST:
@@ -135,7 +146,7 @@ def build(doc):
         # an assertion in the Advice with its own audience restriction; its attribute must not be honoured unless it lists me
         a['advice'] = forge.assertion(now, aid='ADV1', authn=False, audiences=AUD[doc['advice']], attrs=(('role', (ADVICE_MARK,)),))
     r = dict(irt=doc['irt'], dest=dest_value(doc['dest'], b))
-    return forge.build(now, resp=r, assertions=[a], sign_resp=None if b == BINDING_SOAP else 'idpA', encrypt='spXenc1' if doc['enc'] else None)
+    return forge.build(now, resp=r, assertions=[a], sign_resp=None if (b == BINDING_SOAP or doc.get('unsigned')) else 'idpA', encrypt='spXenc1' if doc['enc'] else None)
 
 
 def required_reject(doc, allow, conv, regex):
@@ -150,11 +161,13 @@ def required_reject(doc, allow, conv, regex):
         elif any(s is not None and s != doc['irt'] for s in scds):
             why.append('a-confirmation-names-another-request')
     d = dest_value(doc['dest'], b)
+    # (an SP registered for POST only has no endpoint at all for a message that came over another binding)
+    own = [] if (doc.get('post_only') and b != BINDING_HTTP_POST) else OWN[b]
     if browser and d is not None:
         if regex:
-            if not re.search(REGEXES[regex], d) and d not in OWN[b]:
+            if not re.search(REGEXES[regex], d) and d not in own:
                 why.append('b-destination-not-mine')
-        elif d not in OWN[b]:
+        elif d not in own:
             why.append('b-destination-not-mine')
     auds = AUD[doc['aud']]
     if any(SP_X not in r for r in auds):
@@ -181,7 +194,7 @@ def _evaluate(doc):
     for allow, conv, regex in itertools.product((False, True), (False, True, 'partial'), (False, True, 'mid')):
         if doc.get('prime'):
             _sp.pop((allow, regex), None)
-        sp = sp_for(allow, regex, unsigned=(doc['binding'] == BINDING_SOAP))
+        sp = sp_for(allow, regex, unsigned=(doc['binding'] == BINDING_SOAP or bool(doc.get('unsigned'))), post_only=bool(doc.get('post_only')))
         if doc.get('prime'):
             pd = dict(binding=doc['prime'], enc=False, irt='req1', scd=['req1'], dest='own', aud='me', recip='own')
             first = oracle.accept_response(sp, build(pd), binding=doc['prime'], outstanding=OUTSTANDING)
